@@ -191,7 +191,10 @@ class Run:
         self.plan = plan
         self.g = gufo()
         self.sim = Sim()
-        self.agent = Agent(plan.get("agent", {}), self.sim)
+        # one agent by default; "agents" (list) + per-session "agent": k gives several
+        # authoritative engines in one process (cross-session history between engines)
+        self.agents = [Agent(a, self.sim) for a in plan.get("agents", [plan.get("agent", {})])]
+        self.agent = self.agents[0]
         self.sessions = []
         self.sess_cfg = plan.get("sessions", [])
         self.results = []  # per op: dict
@@ -226,6 +229,10 @@ class Run:
         self.key_of[(ep.idx, serial)] = key
         return self.plan.get("send_errors", {}).get(key)
 
+    def agent_of(self, idx):
+        k = self.sess_cfg[idx].get("agent", 0) if idx < len(self.sess_cfg) else 0
+        return self.agents[k % len(self.agents)]
+
     def script_for(self, idx, serial):
         return self.plan.get("scripts", {}).get(self.key_of[(idx, serial)], DEFAULT_SCRIPT)
 
@@ -255,7 +262,7 @@ class Run:
         if req == "drop":
             self.sim.count("fault.req-drop")
         else:
-            reps = self.agent.handle(data, answers)
+            reps = self.agent_of(idx).handle(data, answers)
             base = reps[0] if reps else None
         self.genuine[self.key_of[(idx, serial)]] = base
         items = script.get("replies", DEFAULT_SCRIPT["replies"])
@@ -309,8 +316,11 @@ class Run:
             sim.count("fault.stale")
         elif k == "custom":
             if base is None:
-                # agent did not answer (e.g. request dropped): build from the wire
-                return
+                # the agent did not answer (request lost, or nothing to say): an attacker can still
+                # answer what he saw on the wire, at noAuthNoPriv level
+                base = self.synth_base(idx, serial)
+                if base is None:
+                    return
             rep = self.custom_reply(idx, serial, item, base)
             sim.count("agent.custom")
         else:
@@ -356,6 +366,17 @@ class Run:
         for c in range(n):
             d = sim.deliver(idx, data, rep.label, delay + c * gap)
             self.dgrams[d.id] = {"s": idx, "label": rep.label, "hex": data.hex()}
+
+    def synth_base(self, idx, serial):
+        dec = self.wire_dec.get((idx, serial))
+        if not dec or not dec.get("ok"):
+            return None
+        agent = self.agent_of(idx)
+        m = dec["m"]
+        answers = (idx, serial)
+        if dec["version"] == 3:
+            return agent.v3_reply(m, snmp.PDU_RESPONSE, dec["request_id"], 0, 0, [], answers, None, 0)
+        return agent.community_reply(dec["version"], m["community"], dec["request_id"], 0, 0, [], answers)
 
     def custom_reply(self, idx, serial, item, base: Reply):
         """Hostile / scripted content in place of the RFC answer; keeps the
@@ -507,12 +528,13 @@ class Run:
         do = op["do"]
         self.sim.log("env", self.sim.now, do)
         self.sim.count("env." + do)
+        agent = self.agents[op.get("agent", 0) % len(self.agents)]
         if do == "restart":
-            self.agent.restart(op.get("boots"), op.get("time0", 0))
+            agent.restart(op.get("boots"), op.get("time0", 0))
         elif do == "jump":
-            self.agent.jump_time(op["delta_s"])
+            agent.jump_time(op["delta_s"])
         elif do == "set_boots":
-            self.agent.boots = op["boots"]
+            agent.boots = op["boots"]
         else:
             raise HarnessError("unknown env action %r" % do)
 
